@@ -288,6 +288,11 @@ func join(basePath *url.URL, relativePath *url.URL) *url.URL {
 }
 
 func resolvePath(basePath *url.URL, componentPath *url.URL) *url.URL {
+	if basePath != nil && basePath.Host != "" && componentPath.Scheme == "" {
+		// a reference without a scheme inside a remote document (`other.yml`, `/abs.yml`,
+		// `//host/x.yml`, `?v=2`) is resolved against that document's location (RFC 3986, 5.2)
+		return basePath.ResolveReference(componentPath)
+	}
 	if is_file(componentPath) {
 		// support absolute paths
 		if filepath.IsAbs(componentPath.Path) {
